@@ -4,6 +4,7 @@ CONSTANTS
   Kinds <- KindsAll
   MaxT = 2
   Variant = "ok"
+  Srcs = "all"
 INVARIANT TypeOK
 INVARIANT PermInv
 INVARIANT PermBijective
